@@ -51,6 +51,27 @@ func C10(c *core.Ctx) {
 	emit(c, a.QualifiedResolution())
 	ruleDedup(c)
 	ruleDefsAsWritten(c)
+	skel.DepsDir = filepath.Join(c.VerifDir, "checker", "testdata", "emitdeps")
+	// ONE definition reached from three kinds of places — a property, the items of an array, the values of a map: one Go type, generated
+	// once, with its checks, whichever referrer is visited first
+	for _, d := range []*fam.Spec{{Kind: "object", Props: []*fam.Prop{{Label: "q", Spec: &fam.Spec{Kind: "string", Kw: []string{"minLength"}}, Required: true}}}, {Kind: "string", Kw: []string{"maxLength"}}} {
+		dd := d.Clone()
+		dd.Ref = "$defs"
+		mb := member{name: "one definition referenced from a property, array items and map values (" + d.String() + ")", cfg: gen.DefaultConfig(),
+			root: &fam.Spec{Kind: "object", Props: []*fam.Prop{
+				{Label: "m", Spec: &fam.Spec{Kind: "object", AddPropsSpec: dd}},
+				{Label: "p", Spec: dd, Required: true},
+				{Label: "xs", Spec: &fam.Spec{Kind: "array", Items: dd}}}}}
+		runMember(c, mb, ruleSet("A-MAP", "A-REJ", "A-REQ", "A-NOEXTRA", "A-NILG", "A-TYP", "A-SHARE"), 64, func(w *fam.World, fm *fam.FileModel) []fam.Issue {
+			var keep []fam.Issue
+			for _, is := range append(checkRoot(w, fm), w.TypIssues(c.Prog.Repo)...) {
+				if is.Rule != "A-REJ:chars" { // the byte-length measure is C06's listed finding, the same inline
+					keep = append(keep, is)
+				}
+			}
+			return keep
+		})
+	}
 	// a chain of two references is as transparent as one: a property that refers to a definition whose whole content is a $ref to the
 	// real definition gets that definition's type and checks
 	for _, sp := range []*fam.Spec{{Kind: "string", Kw: []string{"minLength"}}, {Kind: "integer", Kw: []string{"maximum"}},
